@@ -214,7 +214,7 @@ def _analyse(tier, seed):
                 finds.append((tags | {"C05"}, dict(cls, check="redecode"), replay))
             if not r.get("ld_ok", True):
                 finds.append(({"C05"}, dict(cls, check="length-delimited"), replay))
-            bare = cs["sid"] == "pbk" and cs["ty"].endswith("Value")      # wrapper messages are bare Rust scalars: no field names in Debug
+            bare = cs["sid"] == "pbk" and (cs["ty"].endswith("Value") or cs["ty"] == "Empty")      # wrapper messages are bare Rust scalars: no field names in Debug
             if cs["kind"] == "canon" and op == "decode" and r.get("dbg") and not bare:
                 bad_fields = held_values_mismatch(pss, cs, r["dbg"])
                 for fname, fk, want in bad_fields:
